@@ -30,6 +30,7 @@ class WorkerProc:
         msg = json.loads(line)
         if not msg.get("ready"):
             raise RuntimeError("worker failed to start:\n" + msg.get("error", "?"))
+        self.ref_hashseed = msg.get("ref_hashseed")
 
     def call(self, job):
         """Returns result dict, or None if the worker died (hang watchdog / crash)."""
@@ -74,7 +75,8 @@ class Pool:
 
         def boot(g, i, hs):
             try:
-                w = WorkerProc(scratch.trees[i], world, os.path.join(scratch.root, "work%02d" % i), hs, extra_env)
+                w = WorkerProc(scratch.trees[i], world, os.path.join(scratch.root, "work%02d" % i), hs,
+                               dict(extra_env or {}, VERIF_WORKER_INDEX=str(i)))
                 with lock:
                     self.workers.setdefault(g, []).append(w)
             except Exception as e:  # noqa
@@ -101,15 +103,25 @@ class Pool:
         lock = threading.Lock()
         iters = {g: iter(j) for g, j in jobs_by_group.items()}
         ilock = threading.Lock()
+        exhausted_must = set()
 
         def nxt(g):
+            # jobs flagged "must" (enumeration sweeps, cross-interpreter comparisons) are never cut by the
+            # deadline: generators yield them first; the deadline only ends the open-ended seed stream
             with ilock:
-                if self.stop or (deadline is not None and time.monotonic() > deadline):
+                if self.stop:
+                    return None
+                late = deadline is not None and time.monotonic() > deadline
+                if late and g in exhausted_must:
                     return None
                 try:
-                    return next(iters[g])
+                    job = next(iters[g])
                 except (StopIteration, KeyError):
                     return None
+                if late and not job.get("must"):
+                    exhausted_must.add(g)
+                    return None
+                return job
 
         def loop(g, w):
             while True:
@@ -167,6 +179,7 @@ def write_replay(prop, res, hashseed, fingerprint):
     doc = {"property": prop, "oracle": v["oracle"], "seed": res["trace"].get("seed"), "hashseed": hashseed,
            "key": violation_key(res), "violation": v, "all_violations": res["violations"],
            "trace": res["trace"], "shrunk": res.get("shrunk"), "tree_fingerprint": fingerprint,
+           "ref_hashseed": res.get("ref_hashseed"),
            "events": res.get("events")}
     name = "%s-s%s-%s.json" % (prop, res["trace"].get("seed"), core.digest_of(_essential(res["trace"]))[:8])
     path = os.path.join(d, name)
@@ -200,8 +213,9 @@ def replay_file(path, scratch=None):
             ok = len(set(d[0] for d in digs.values() if d)) == 1 and len(set(d[1] for d in digs.values() if d)) > 1
             return ok, {"status": "violation" if ok else "ok", "digests": {str(k): v for k, v in digs.items()},
                         "violations": [{"oracle": "hashseed_dependent", "observed": digs and str(digs)}]}
+        extra = {"VERIF_REF_HASHSEED": str(doc["ref_hashseed"])} if doc.get("ref_hashseed") is not None else None
         w = WorkerProc(tree, WORLD_OF[doc["property"]], os.path.join(scratch.root, "replay-work"),
-                       doc.get("hashseed", 0))
+                       doc.get("hashseed", 0), extra)
         try:
             res = w.call({"cmd": "exec", "trace": doc["trace"], "events": True, "timeout": 600})
         finally:
